@@ -204,7 +204,67 @@ def _run_ids_impl(sc, ids):
     return None
 
 
-def sequence_run(hz, ops, capacity=2):
+def sequence_run(hz, ops, capacity=2, family=1):
+    if family == 2:
+        return sequence_run_values(hz, ops, capacity)
+    return _sequence_run_kinds(hz, ops, capacity)
+
+
+def sequence_run_values(hz, ops, capacity=2):
+    """histories in which comparisons fail or succeed depending on the VALUES met (quantities whose units differ from the
+    literal's, text against a number) and in which one entity is changed between two evaluations of a previously obtained
+    function.  ops = list of (filter index, flag): flag False -> evaluate the filter over the grid; flag True -> change the
+    probe entity's value, then evaluate the previously obtained function (or a fresh one) on that one entity."""
+    import functools
+    GF = sys.modules['hszinc.grid_filter']
+    D = sys.modules['hszinc.datatypes']
+    GF.print = lambda *a, **k: None
+    inner = getattr(GF._filter_function, '__wrapped__', GF._filter_function)
+    GF._filter_function = functools.lru_cache(maxsize=capacity)(inner)
+    Q = D.Quantity
+    texts = ['p > 20kW and id', 'p > 5W and id', 'p < 25kW and id', 'p < 5W and id']
+    cells = [Q(22, 'kW'), Q(3, 'W'), Q(30, 'kW'), 'text', Q(10, 'W')]
+    wants = [['r0', 'r2'], ['r4'], ['r0'], ['r1']]
+    g = hz.Grid(version='3.0', columns=[('id', []), ('p', [])])
+    for i, v in enumerate(cells):
+        g.append({'id': 'r%d' % i, 'p': v})
+    probe = {'id': 'probe', 'p': Q(21, 'kW')}
+    probe_vals = [Q(21, 'kW'), Q(4, 'W'), Q(26, 'kW'), Q(6, 'W')]
+    spec = [('>', 20, 'kW'), ('>', 5, 'W'), ('<', 25, 'kW'), ('<', 5, 'W')]          # the four filters, restated
+
+    def ref(fi, v):
+        op, x, u = spec[fi]
+        if not isinstance(v, Q) or v.unit != u:
+            return False            # another kind / another unit: incomparable, so false
+        return v.value > x if op == '>' else v.value < x
+    probe_want = [[ref(fi, v) for fi in range(4)] for v in probe_vals]
+    assert wants == [['r%d' % i for i, c in enumerate(cells) if ref(fi, c)] for fi in range(4)]
+    pv = 0
+    held = {}
+    for k, (fi, flag) in enumerate(ops):
+        try:
+            if flag:
+                pv = (pv + 1 + fi) % len(probe_vals)
+                probe['p'] = probe_vals[pv]
+                fn = held.get(fi) or GF.filter_function(texts[fi])
+                held.setdefault(fi, fn)
+                got = bool(fn(g, probe))
+                if got != probe_want[pv][fi]:
+                    return 'step %d of %r: filter %r on an entity whose p is now %r gives %r' % (k, ops, texts[fi], probe['p'], got)
+                got2 = bool(fn(g, probe))
+                if got2 != got:
+                    return 'step %d of %r: filter %r evaluated twice on one entity gives %r then %r' % (k, ops, texts[fi], got, got2)
+                continue
+            got = [r['id'] for r in g.filter(texts[fi])]
+            held.setdefault(fi, GF.filter_function(texts[fi]))
+        except Exception as e:
+            return 'step %d of %r raised %s: %s' % (k, ops, type(e).__name__, str(e)[:80])
+        if got != wants[fi]:
+            return 'step %d of %r: filter %r gives %r instead of %r' % (k, ops, texts[fi], got, wants[fi])
+    return None
+
+
+def _sequence_run_kinds(hz, ops, capacity=2):
     """history over a small alphabet: ops = list of (filter index, use a previously obtained function?) with an LRU cache of
     `capacity` entries.  -> problem or None"""
     import functools
